@@ -160,6 +160,14 @@ func checkC18(t testing.TB, c C18Case) (key, what string) {
 	if err != nil {
 		return "genfunclist-error", fmt.Sprintf("generation failed: %v", err)
 	}
+	// a generated function stays what it is when another list is generated
+	snapshot := bytes.Clone(fn)
+	if _, err := shellfuncsfile.GenFuncList("# TABDOC: zz_other A function of some other payload, long enough to overwrite a reused buffer " + strings.Repeat("x", 200) + "\nzz_other() { :; }\n"); err != nil {
+		return "genfunclist-error", fmt.Sprintf("generation failed on the canned second payload: %v", err)
+	}
+	if !bytes.Equal(fn, snapshot) {
+		return "result-changed-by-later-generation", "the generated tab_list changed when a list was generated for another payload afterwards"
+	}
 	script := echoStub + string(fn) + "\ntab_list\n"
 	fid := fidelity(c)
 	want := refRows(c)
